@@ -109,9 +109,9 @@ def _farblock(case, rec, rng):
         n1, e1, v1 = gen.nr_eval(ks, dm, max_memory=mm)
         det = {"max_memory": mm, "ngrids": int(ks.grids.weights.size)}
         rec.check("blocking_vmat[far-apart]", float(np.max(np.abs(np.asarray(v1) - np.asarray(v0)))) / vs, TOL,
-                  mechanism="nr_%s:blocking:vmat[far-apart fragments]" % cfg["spin"], detail=det)
+                  mechanism="nr_%s:blocking:vmat[far-apart-fragments]" % cfg["spin"], detail=det)
         rec.check("blocking_energy[far-apart]", float(np.max(np.abs(np.asarray(e1) - np.asarray(e0)))) / max(abs(float(np.atleast_1d(e0)[0])), 1e-3), TOL,
-                  mechanism="nr_%s:blocking:energy[far-apart fragments]" % cfg["spin"], detail=det)
+                  mechanism="nr_%s:blocking:energy[far-apart-fragments]" % cfg["spin"], detail=det)
         rec.nontrivial("mm%g" % mm)
     rec.set_sample({"cfg": cfg, "distance_A": d, "ngrids": int(ks.grids.weights.size), "exc": float(np.atleast_1d(e0)[0])})
 
